@@ -32,14 +32,14 @@ Definition is_arithmetic (n : node) : bool := existsb (fun o => op_in o arithmet
 Definition is_aggregation (n : node) : bool := existsb (fun o => op_in o aggregation_ops) (get_operators n).
 
 (* is_single_feature_constraint *)
-Definition is_single_feature (n : node) : result bool :=
-  if is_term n then Ok true
+Definition is_single_feature (n : node) : bool :=
+  if is_term n then true
   else if data_is NOT n then
-         match fld (n_left n) with Err e => Err e | Ok a =>
-           if is_term a then Ok true
-           else match fld (n_right n) with Err e => Err e | Ok b => Ok (is_term b) end
+         match n_left n with
+         | Some a => is_term a
+         | None => match n_right n with Some b => is_term b | None => false end
          end
-       else Ok false.
+       else false.
 
 (* x.data == NOT and x.left.is_term()   for x = an operand *)
 Definition neg_of_term (x : node) : result bool :=
@@ -67,7 +67,7 @@ Definition is_requires (n : node) : result bool :=
 
 Definition is_excludes (n : node) : result bool :=
   if is_binary_op n then
-    if data_is EXCLUDES n || data_is XOR n then
+    if data_is EXCLUDES n then
       match fld (n_left n) with Err e => Err e | Ok a =>
         if is_term a then
           match fld (n_right n) with Err e => Err e | Ok b => Ok (is_term b) end
@@ -146,14 +146,14 @@ Definition existsM {A} (f : A -> result bool) (l : list A) : result bool :=
                end) l.
 
 Definition is_pseudocomplex (n : node) : result bool :=
-  if negb (is_logical n) then Ok false
-  else match split_asts n with Err e => Err e | Ok l =>
-         if Nat.ltb 1 (List.length l) then forallM is_simple l else Ok false
-       end.
+  match is_complex n with Err e => Err e | Ok false => Ok false | Ok true =>
+    match split_asts n with Err e => Err e | Ok l => forallM is_simple l end
+  end.
 
 Definition is_strictcomplex (n : node) : result bool :=
-  if negb (is_logical n) then Ok false
-  else match split_asts n with Err e => Err e | Ok l => existsM is_complex l end.
+  match is_complex n with Err e => Err e | Ok false => Ok false | Ok true =>
+    match split_asts n with Err e => Err e | Ok l => existsM is_complex l end
+  end.
 
 (* left_right_features_from_simple_constraint *)
 Definition left_right (n : node) : result (ndata * ndata) :=
